@@ -582,6 +582,7 @@ def rule_R7(ctx):
     b = P.body("huginn_net_tcp::window_size::detect_win_multiplicator")
     S = T.Slicer(b, P)
     rows = {(r["variant"], r["divisor"]): r for r in spec["rows"]}
+    test_blocks = []
     seen = set()
     n = 0
     for (i, j, t, _) in TB.return_sites(b, P):
@@ -601,6 +602,9 @@ def rule_R7(ctx):
             vals = [T.fold_int(e) for e in arr[0][4]] if arr else []
             rev = T.has_call(t, "::rev")
             remz = any(c[0] == "cmp" and c[1] == "Eq" and c[4] is True and T.has_call(c[2], "checked_rem") for c in conds)
+            for c in conds:
+                if c[0] == "cmp" and c[1] == "Eq" and c[4] is True and T.has_call(c[2], "checked_rem") and c[5] is not None:
+                    test_blocks.append(("Mod", c[5]))
             ctx.check(vals == spec["modulos"] and rev and remz, "R7", "window:Mod", "%%m for the largest m in %s dividing the window" % vals,
                       "modulo rendering: values %s, largest-first=%s, remainder test=%s (expected %s, largest first, remainder zero)" % (vals, rev, remz, spec["modulos"]), ctx.loc(b, i))
             seen.add(("Mod", 0))
@@ -628,6 +632,9 @@ def rule_R7(ctx):
         ts = any(c[0] == "bool" and c[2] is True and T.pp(c[1]) == "has_ts" for c in conds)
         remz = any(c[0] == "cmp" and c[1] == "Eq" and c[4] is True and T.strip(c[2])[0] == "binop" and T.strip(c[2])[1] == "Rem"
                    and T.pp(T.strip(T.strip(c[2])[3])) == T.pp(D) and T.fold_int(c[3]) == 0 for c in conds)
+        for c in conds:
+            if c[0] == "cmp" and c[1] == "Eq" and c[4] is True and T.strip(c[2])[0] == "binop" and T.strip(c[2])[1] == "Rem" and T.pp(T.strip(T.strip(c[2])[3])) == T.pp(D) and c[5] is not None:
+                test_blocks.append((var, c[5]))
         fits = any(c[0] == "cmp" and c[1] == "Le" and c[4] is True and T.pp(T.strip(c[2])) == T.pp(inner) and T.fold_int(c[3]) == 255 for c in conds)
         numok = num[0] == "param" and num[2] == "window_size"
         problems = []
@@ -647,6 +654,18 @@ def rule_R7(ctx):
             problems.append("dividend is not window_size")
         ctx.check(not problems, "R7", inst, "%s(window/%s) iff window %% %s == 0, factor <= 255%s%s" % (var, dn, dn, ", " + row["ip"] if row["ip"] else "", ", has_ts" if row["ts"] else ""),
                   "; ".join(problems), ctx.loc(b, i))
+    # priority: MSS multiples are tried before the modulo patterns, those before MTU multiples (a window that is k*MSS and also a
+    # multiple of 256 must be rendered mss*k - `%m` never matches an `mss*k` signature)
+    def first_test(var):
+        bl = [tb for (v, tb) in test_blocks if v == var]
+        return bl
+    order = [("Mss", "Mod")]
+    for (a, c) in order:
+        ta, tc = first_test(a), first_test(c)
+        okord = bool(ta) and bool(tc) and all(C.reaches(b, x, y) and not C.reaches(b, y, x) for x in ta for y in tc)
+        ctx.check(okord, "R7", "window:priority:%s<%s" % (a, c), "%s patterns are tested before %s patterns" % (a, c),
+                  "%s patterns are no longer all tested before the %s patterns: a window satisfying both is rendered in the lower-priority form, which signatures written "
+                  "in the other form never accept" % (a, c), ctx.loc(b))
     missing = sorted(k for k in rows if k not in seen)
     ctx.check(not missing, "R7", "window:table-complete", "all %d divisors of the table are tried" % len(rows), "divisors of the specification table never tried: %s" % missing, ctx.loc(b))
     ctx.floor("R7", "window multiplier return sites", len(seen), 12)
